@@ -156,6 +156,224 @@ theorem scan_assemble (d : Delims) : ∀ (ps : List Piece) (pos : Nat), srcWf d 
       rw [h3]
       exact congrArg _ ih
 
+
+/-! ## markup pieces: the output statement -/
+
+
+theorem stripPrefix_append : ∀ (p t : Str), stripPrefix? p (p ++ t) = some t
+  | [], t => by simp [stripPrefix?]
+  | x :: p, t => by simp [stripPrefix?, stripPrefix_append p t]
+
+theorem skipSpaces_append : ∀ (ws t : Str), allSpace ws = true → headIs isSpace t = false →
+    skipSpaces (ws ++ t) = (ws.length, t)
+  | [], t, _, ht => by
+    cases t with
+    | nil => rfl
+    | cons c cs => simp only [headIs] at ht; simp [skipSpaces, ht]
+  | w :: ws, t, hw, ht => by
+    simp only [allSpace, List.all_cons, Bool.and_eq_true] at hw
+    have ih := skipSpaces_append ws t (by simpa [allSpace] using hw.2) ht
+    simp [skipSpaces, hw.1, ih]
+
+theorem skipSpaces_snd : ∀ (t : Str), (skipSpaces t).2 = t.dropWhile isSpace
+  | [] => rfl
+  | c :: cs => by
+    by_cases h : isSpace c = true
+    · simp [skipSpaces, h, List.dropWhile, skipSpaces_snd cs]
+    · simp [skipSpaces, h, List.dropWhile]
+
+theorem headIs_plain {close : Str} (h : plainDelim close = true) (rest : Str) :
+    headIs isSpace (close ++ rest) = false ∧ headIs (· == '-') (close ++ rest) = false := by
+  cases close with
+  | nil => simp [plainDelim] at h
+  | cons c cs =>
+    simp only [plainDelim, Bool.and_eq_true, Bool.not_eq_true', bne_iff_ne, ne_eq] at h
+    simp [headIs, h.1.1, h.1.2]
+
+theorem optHyphen_of_not_head {t : Str} (h : headIs (· == '-') t = false) : optHyphen t = (false, t) := by
+  cases t with
+  | nil => rfl
+  | cons c cs =>
+    simp only [headIs, beq_eq_false_iff_ne, ne_eq] at h
+    unfold optHyphen
+    split
+    · next heq => cases heq; exact absurd rfl h
+    · rfl
+
+/-- `\s*(-?)CLOSE` matches right at the padded closing delimiter of a piece -/
+theorem closeAt_tail (close ws2 rest : Str) (r : Bool) (hws : allSpace ws2 = true) (hp : plainDelim close = true) :
+    closeAt? close (ws2 ++ hy r ++ close ++ rest) = some (r, ws2.length + (if r then 1 else 0) + close.length) := by
+  obtain ⟨h1, h2⟩ := headIs_plain hp rest
+  cases r with
+  | true =>
+    have hsp := skipSpaces_append ws2 ('-' :: (close ++ rest)) hws (by simp [headIs, isSpace])
+    simp only [hy, if_true, List.append_assoc, List.cons_append, List.nil_append]
+    simp [closeAt?, hsp, optHyphen, stripPrefix_append]
+  | false =>
+    have hsp := skipSpaces_append ws2 (close ++ rest) hws h1
+    simp only [hy, Bool.false_eq_true, if_false, List.append_nil, List.append_assoc]
+    simp [closeAt?, hsp, optHyphen_of_not_head h2, stripPrefix_append]
+
+/-- where `\s*-?CLOSE` does not match (as stated by `closesHere` in `Piece.wf`) the scanner's `closeAt?` fails -/
+theorem closeAt_none (close t : Str) (h : closesHere close t = false) : closeAt? close t = none := by
+  simp only [closesHere, Bool.or_eq_false_iff] at h
+  rw [← skipSpaces_snd] at h
+  obtain ⟨ha, hb⟩ := h
+  unfold closeAt?
+  simp only
+  cases hsp : (skipSpaces t).2 with
+  | nil =>
+    rw [hsp] at ha
+    simp [optHyphen, stripPrefix_none_of_startsWith _ _ ha]
+  | cons c u =>
+    rw [hsp] at ha hb
+    by_cases hc : c = '-'
+    · subst hc
+      have hb' : startsWith close u = false := by simpa [startsWith] using hb
+      simp [optHyphen, stripPrefix_none_of_startsWith _ _ hb', stripPrefix_none_of_startsWith _ _ ha]
+    · have : optHyphen (c :: u) = (false, c :: u) := optHyphen_of_not_head (by simp [headIs, hc])
+      simp [this, stripPrefix_none_of_startsWith _ _ ha]
+
+/-- the lazy group stops exactly at the end of the expression -/
+theorem findFirst_exact {α : Type} (f : Str → Option α) (g : Str → Bool) (hfg : ∀ t, g t = false → f t = none) :
+    ∀ (e tail : Str) (a : α), allSuffixes (fun t => !g t) e tail = true → f tail = some a →
+      findFirst f (e ++ tail) = some (e.length, a)
+  | [], tail, a, _, hf => by
+    cases tail with
+    | nil => simp [findFirst, hf]
+    | cons c cs => simp [findFirst, hf]
+  | c :: e, tail, a, h, hf => by
+    simp only [allSuffixes, Bool.and_eq_true, Bool.not_eq_true'] at h
+    have hnone := hfg _ h.1
+    have ih := findFirst_exact f g hfg e tail a h.2 hf
+    simp only [List.cons_append] at hnone ⊢
+    simp [findFirst, hnone, ih]
+
+
+
+
+
+theorem isSpace_ne_hyphen {c : Char} (h : isSpace c = true) : c ≠ '-' := by
+  intro hc; subst hc; simp [isSpace] at h
+
+theorem headIs_hyphen_ws {ws t : Str} (hws : allSpace ws = true) (hne : ws ≠ []) :
+    headIs (· == '-') (ws ++ t) = false := by
+  cases ws with
+  | nil => exact absurd rfl hne
+  | cons c cs =>
+    simp only [allSpace, List.all_cons, Bool.and_eq_true] at hws
+    simp [headIs, isSpace_ne_hyphen hws.1]
+
+theorem optHyphen_hy (l : Bool) (y : Str) (h : l = true ∨ headIs (· == '-') y = false) :
+    optHyphen (hy l ++ y) = (l, y) := by
+  cases l with
+  | true => simp [hy, optHyphen]
+  | false =>
+    rcases h with h | h
+    · cases h
+    · simpa [hy] using optHyphen_of_not_head h
+
+/-- the conditions of `Piece.wf` on an output piece, with what follows included in the search for the closing
+delimiter -/
+structure OutputWf (d : Delims) (l r : Bool) (ws1 e ws2 rest : Str) : Prop where
+  hws1 : allSpace ws1 = true
+  hws2 : allSpace ws2 = true
+  eHead : headIs isSpace e = false
+  eEmpty : e ≠ [] ∨ ws2 = []
+  lead : l = true ∨ ws1 ≠ [] ∨ (headIs (· == '-') e = false ∧ (e ≠ [] ∨ r = false))
+  close : allSuffixes (fun t => !closesHere d.stmtE t) e (ws2 ++ hy r ++ d.stmtE ++ rest) = true
+
+theorem output_found (d : Delims) (hT : d.tagS = ['{', '%']) (hS : d.stmtS = ['{', '{'])
+    (hE : plainDelim d.stmtE = true) (hC : d.cmtS = [] ∨ d.cmtS = ['{', '#'])
+    (l r : Bool) (ws1 e ws2 rest : Str) (hw : OutputWf d l r ws1 e ws2 rest) :
+    MarkupFound d (.output l r ws1 e ws2) rest := by
+  obtain ⟨hp1, hp2⟩ := headIs_plain hE rest
+  -- what follows the opening `{{`
+  have hY : l = true ∨ headIs (· == '-') (ws1 ++ (e ++ (ws2 ++ (hy r ++ (d.stmtE ++ rest))))) = false := by
+    rcases hw.lead with h | h | ⟨h1, h2⟩
+    · exact Or.inl h
+    · exact Or.inr (headIs_hyphen_ws hw.hws1 h)
+    · by_cases hws : ws1 = []
+      · right
+        subst hws
+        cases e with
+        | cons c cs => simpa [headIs] using h1
+        | nil =>
+          have hws2 : ws2 = [] := by rcases hw.eEmpty with h | h; exact absurd rfl h; exact h
+          have hr : r = false := by rcases h2 with h | h; exact absurd rfl h; exact h
+          subst hws2; subst hr
+          simpa [hy] using hp2
+      · exact Or.inr (headIs_hyphen_ws hw.hws1 hws)
+  have hZ : headIs isSpace (e ++ (ws2 ++ (hy r ++ (d.stmtE ++ rest)))) = false := by
+    cases e with
+    | cons c cs => simpa [headIs] using hw.eHead
+    | nil =>
+      have hws2 : ws2 = [] := by rcases hw.eEmpty with h | h; exact absurd rfl h; exact h
+      subst hws2
+      cases r with
+      | true => simp [hy, headIs, isSpace]
+      | false => simpa [hy] using hp1
+  have hsrc : (Piece.output l r ws1 e ws2).src d ++ rest =
+      '{' :: '{' :: (hy l ++ (ws1 ++ (e ++ (ws2 ++ (hy r ++ (d.stmtE ++ rest)))))) := by
+    simp [Piece.src, hS, List.append_assoc]
+  have hopt := optHyphen_hy l _ hY
+  have hsp := skipSpaces_append ws1 _ hw.hws1 hZ
+  have hclose := closeAt_tail d.stmtE ws2 rest r hw.hws2 hE
+  have hfind := findFirst_exact (closeAt? d.stmtE) (closesHere d.stmtE) (closeAt_none d.stmtE) e
+    (ws2 ++ hy r ++ d.stmtE ++ rest) _ hw.close hclose
+  simp only [List.append_assoc] at hfind
+  refine ⟨by simp [Piece.src, hS], ?_, ?_⟩
+  · intro pos la
+    refine ⟨'{', _, hsrc, ?_⟩
+    have hlen : (hy l).length = if l = true then 1 else 0 := by cases l <;> rfl
+    have hlenr : (hy r).length = if r = true then 1 else 0 := by cases r <;> rfl
+    have htake : List.take ((Piece.output l r ws1 e ws2).src d).length ((Piece.output l r ws1 e ws2).src d ++ rest)
+        = (Piece.output l r ws1 e ws2).src d := by simp
+    rw [hsrc] at htake
+    have hn : (2 + if l = true then 1 else 0) + ws1.length + e.length +
+        ((ws2.length + if r = true then 1 else 0) + d.stmtE.length) = ((Piece.output l r ws1 e ws2).src d).length := by
+      simp only [Piece.src, hS, List.length_append, List.length_cons, List.length_nil, hlen, hlenr]; omega
+    rcases hC with hC | hC
+    · simp [matchAt, blockAt?, kwTagAt?, stripPrefix?, hT, hS, hC, hopt, hsp, hfind, pieceMatch]
+      exact ⟨hn, by rw [hn]; exact htake, by rw [hlen]; omega⟩
+    · simp [matchAt, blockAt?, kwTagAt?, stripPrefix?, hT, hS, hC, hopt, hsp, hfind, pieceMatch]
+      exact ⟨hn, by rw [hn]; exact htake, by rw [hlen]; omega⟩
+  · rw [hsrc]
+    simp [openerAt?, stripPrefix?, hT, hS, hopt, Piece.openHyphen]
+
+
+theorem outputWf_of_wf (d : Delims) (l r : Bool) (ws1 e ws2 next : Str)
+    (h : (Piece.output l r ws1 e ws2).wf d next = true) : OutputWf d l r ws1 e ws2 next := by
+  simp only [Piece.wf, Bool.and_eq_true, Bool.or_eq_true, Bool.not_eq_true', decide_eq_true_eq] at h
+  obtain ⟨⟨⟨⟨⟨⟨h1, h2⟩, h3⟩, _⟩, h5⟩, h6⟩, h7⟩ := h
+  refine ⟨h1, h2, h3, h5, ?_, h7⟩
+  rcases h6 with (h6 | h6) | ⟨h6a, h6b⟩
+  · exact Or.inl h6
+  · exact Or.inr (Or.inl h6)
+  · refine Or.inr (Or.inr ⟨h6a, ?_⟩)
+    rcases h6b with h | h
+    · exact Or.inl h
+    · exact Or.inr h
+
+def Piece.isOutput : Piece → Bool
+  | .output _ _ _ _ _ => true
+  | _ => false
+
+/-- for templates made of text and output statements, well-formedness implies that the scanner finds every
+markup piece (default tag / output openers, a plain output closer, shorthand comments off or `{#`) -/
+theorem allMarkupFound_text_output (d : Delims) (hT : d.tagS = ['{', '%']) (hS : d.stmtS = ['{', '{'])
+    (hE : plainDelim d.stmtE = true) (hC : d.cmtS = [] ∨ d.cmtS = ['{', '#']) :
+    ∀ (ps : List Piece), ps.all (fun p => p.isText || p.isOutput) = true → srcWf d ps = true → AllMarkupFound d ps
+  | [], _, _ => trivial
+  | p :: rest, hall, hwf => by
+    simp only [List.all_cons, Bool.and_eq_true] at hall
+    simp only [srcWf, Bool.and_eq_true] at hwf
+    refine ⟨fun ht => ?_, allMarkupFound_text_output d hT hS hE hC rest hall.2 hwf.2⟩
+    cases p with
+    | output l r ws1 e ws2 => exact output_found d hT hS hE hC l r ws1 e ws2 _ (outputWf_of_wf d l r ws1 e ws2 _ hwf.1.1)
+    | text s => simp [Piece.isText] at ht
+    | _ => simp [Piece.isText, Piece.isOutput] at hall
+
 /-- lex and parse a template given as a STRING: scanner, tokenizer, parser -/
 def nodesOfString (d : Delims) (src : Str) : Except LexError (List Node) :=
   match tokenize {} (scan d src) with
